@@ -103,7 +103,6 @@ func runOneMutant(c *Ctx, pd *propDef, m mutation) (out struct {
 				}
 			}()
 			sub.load("", map[string][]byte{path: []byte(mutated)})
-			sub.normalize(map[string][]byte{path: []byte(mutated)})
 			pd.Run(sub)
 		}()
 		if loadFailed != "" {
